@@ -15,7 +15,7 @@ let op_of s =
   else if String.length s > 2 && String.sub s 0 2 = "UE" then UpdEcps (nat_of_int (int_of_string (String.sub s 2 (String.length s - 2))))
   else failwith ("bad op " ^ s)
 
-let groups (c : (nat * nat) list list) : string =
+let groups (c : (nat * nat) list list) : String.t =
   (* run-length encode equal formal sums *)
   let rec rle acc = function
     | [] -> List.rev acc
